@@ -18,3 +18,4 @@ import RenetVerif.Props.SrcTieAcks
 import RenetVerif.Props.SrcTieTokenTable
 import RenetVerif.Props.SrcTieNcSerialize
 import RenetVerif.Props.SrcTieNcToken
+import RenetVerif.Props.SrcTieNcSequence
